@@ -345,6 +345,9 @@ var raceFrame = regexp.MustCompile(`(?m)^\s+(servitor/[^\s(]+)\(`)
 
 func classifyDeath(prop string, d *jobDeath) (rule, culprit string) {
 	st := d.stderr
+	if d.memory {
+		return "M-wedge", "runaway-memory"
+	}
 	if d.timeout {
 		return "M-wedge", "no-progress-within-wall-limit"
 	}
